@@ -163,6 +163,7 @@ pub fn gen_program(seed: u64) -> Program {
         let nested = r.chance(1, 2);
         let nmods = r.range(2, 4);
         let nmods = if nested && r.chance(1, 2) { nmods + 2 } else { nmods };
+        let same_name_clash = r.chance(1, 3);
         for m in 0..nmods {
             let (path, import) = if nested && m % 2 == 1 {
                 // siblings share `shared_pkg/` (several entries in one directory's module list), some live deeper
@@ -182,13 +183,28 @@ pub fn gen_program(seed: u64) -> Program {
             body.push_str(&format!("pub model Item{m}:\n    id: int\n    label: str\n\n"));
             body.push_str(&format!("pub def helper{m}(x: int) -> int:\n    return x + {m}\n\n"));
             body.push_str(&format!("def private{m}() -> int:\n    return {m}\n"));
+            if same_name_clash {
+                // one module exports `describe(str)`, another keeps a private `describe(int)`: whichever signature the
+                // compiler consults at the call site must not depend on the order modules happened to be collected in
+                if m == 0 {
+                    body.push_str("\npub def describe(label: str) -> str:\n    return label\n");
+                } else {
+                    body.push_str(&format!("\ndef describe(n: int) -> int:\n    return n + {m}\n"));
+                }
+            }
             if mutant && r.chance(1, 4) {
                 // a syntax or lexical error inside an imported module: its diagnostics name the module's file
                 body.push_str(if r.chance(1, 2) { "\ndef broken_dep( -> int:\n    return 1\n" } else { "\ndef broken_dep() -> int:\n    return 1 $ 2\n" });
                 targets.push("dependency diagnostics".to_string());
             }
-            files.push((path, body));
+            files.push((path.clone(), body));
             main.push_str(&import);
+            if same_name_clash && m == 0 {
+                let modpath = path.trim_end_matches(".incn").replace('/', ".");
+                main.push_str(&format!("from {modpath} import describe\n"));
+                uses.push("    d = describe(\"widget\")\n".to_string());
+                targets.push("function registry merge".to_string());
+            }
             uses.push(format!("    v{m} = helper{m}({m})\n    it{m} = Item{m}(id={m}, label=\"l\")\n"));
         }
         targets.push("modules".to_string());
@@ -539,7 +555,8 @@ pub fn mask_timings(s: &str) -> String {
 fn first_diff(a: &Obs, b: &Obs) -> Option<(String, String, String)> {
     let keys: BTreeSet<&String> = a.keys().chain(b.keys()).collect();
     for k in keys {
-        if k == "canary" {
+        // the hash canary is a probe; the internal module collection order is a mechanism, not an output
+        if k == "canary" || k == "modules" {
             continue;
         }
         let x = a.get(k).cloned().unwrap_or_else(|| "<absent>".into());
